@@ -1,6 +1,6 @@
 (** Windowing utilities (Model/Window.v, C18): limit_df keeps exactly the cycles lying inside the
     requested window, in order, with unchanged feature values and one common shift of all six
-    sample columns; limit_signal keeps exactly the samples with start <= t < stop; split/drop
+    sample columns (by F2Z_round (fs * start), the sample index nearest to fs * start); limit_signal keeps exactly the samples with start <= t < stop; split/drop
     partition the columns; flatten_dfs attaches to every row the label of its table, tables in
     (row-major) order.  Float-order facts come from Base/FloatFacts (Flocq bridge). *)
 From Coq Require Import List Bool Arith ZArith Lia Reals Lra.
@@ -100,7 +100,7 @@ Definition start_or_0 (start : option PrimFloat.float) : PrimFloat.float :=
   match start with Some a => a | None => 0%float end.
 
 Definition limit_offset (fs : PrimFloat.float) (start : option PrimFloat.float) (reset : bool) : Z :=
-  if reset then F2Z_trunc (fs * match start with Some a => a | None => 0%float end)%float else 0%Z.
+  if reset then F2Z_round (fs * match start with Some a => a | None => 0%float end)%float else 0%Z.
 
 Section RowsProofs.
 Context {X : Type}.
@@ -109,7 +109,7 @@ Notation wrowX := (@wrow X).
 Theorem limit_df_spec (rows : list wrowX) fs start stop reset out :
   limit_df rows fs start stop reset = Ok out ->
   let off := if reset
-             then F2Z_trunc (fs * match start with Some a => a | None => 0%float end)%float
+             then F2Z_round (fs * match start with Some a => a | None => 0%float end)%float
              else 0%Z in
   out = map (fun r => (shift_srow off (fst r), snd r)) (filter (keep_row fs start stop) rows).
 Proof.
@@ -599,8 +599,23 @@ Proof. reflexivity. Qed.
 Lemma F2Z_trunc_m0 : F2Z_trunc (-0)%float = 0%Z.
 Proof. reflexivity. Qed.
 
+(** ... and so is (fs * 0) - 0: every comparison of F2Z_round is false, the rounded offset is 0 *)
+Lemma F2Z_round_mul_0 (fs : PrimFloat.float) : F2Z_round (fs * 0)%float = 0%Z.
+Proof.
+  unfold F2Z_round. cbv zeta. rewrite F2Z_trunc_mul_0.
+  change (FloatBase.Z2F 0) with 0%float.
+  rewrite !ltb_spec, !eqb_spec, !sub_spec, !mul_spec.
+  change (Prim2SF 0%float) with (S754_zero false).
+  change (Prim2SF 0x1p-1%float) with (S754_finite false 4503599627370496 (-53)).
+  change (Prim2SF (-0x1p-1)%float) with (S754_finite true 4503599627370496 (-53)).
+  destruct (Prim2SF fs) as [s|s| |s m e]; try destruct s; reflexivity.
+Qed.
+
+Lemma F2Z_round_0 : F2Z_round 0%float = 0%Z.
+Proof. reflexivity. Qed.
+
 Lemma limit_offset_none fs reset : limit_offset fs None reset = 0%Z.
-Proof. unfold limit_offset. destruct reset; [apply F2Z_trunc_mul_0|reflexivity]. Qed.
+Proof. unfold limit_offset. destruct reset; [apply F2Z_round_mul_0|reflexivity]. Qed.
 
 Lemma zero_leb_Z2F (fs : PrimFloat.float) z : finite fs = true -> (0 <= z < 2 ^ 53)%Z ->
   ((0 * fs) <=? FloatFacts.Z2F z)%float = true.
@@ -622,7 +637,7 @@ Proof.
                = filter (fun r : wrowX => ((0 * fs) <=? FloatBase.Z2F (s_last (fst r)))%float) rows).
   { apply filter_ext. intros r. unfold keep_row. cbv zeta. apply andb_true_r. }
   rewrite Hk. destruct reset; [|reflexivity].
-  rewrite F2Z_trunc_mul_0. f_equal. apply map_id_ext. intros [s x]. cbn [fst snd].
+  rewrite F2Z_round_mul_0. f_equal. apply map_id_ext. intros [s x]. cbn [fst snd].
   rewrite shift_srow_0. reflexivity.
 Qed.
 
@@ -710,6 +725,24 @@ Example ex_trunc :
   (F2Z_trunc 0x1.dffffffffffffp+4, F2Z_trunc 0.5, F2Z_trunc 1e3, F2Z_trunc (-2.5),
    F2Z_trunc (100 * f02), F2Z_trunc (100 * 0x1.28f5c28f5c28fp-2), F2Z_trunc 0x1p60)%float
   = (29, 0, 1000, -2, 20, 28, 2 ^ 60)%Z.
+Proof. vm_compute. reflexivity. Qed.
+
+(* int(np.round()): nearest integer, ties to even; 28.999999999999996 = 0x1.cffffffffffffp+4;
+   the offset of the window [0.2 s, ...] at fs = 100 is still 20, and the classic
+   100 * 0.29 = 28.999999999999996 now gives 29 *)
+Example ex_round :
+  (F2Z_round 0x1.cffffffffffffp+4, F2Z_round 0.5, F2Z_round 1.5, F2Z_round 2.5,
+   F2Z_round (-0.5), F2Z_round (-1.5), F2Z_round 1e3)%float
+  = (29, 0, 2, 2, 0, -2, 1000)%Z.
+Proof. vm_compute. reflexivity. Qed.
+Example ex_round_more :
+  (F2Z_round (100 * f02), F2Z_round (100 * 0x1.28f5c28f5c28fp-2), F2Z_round (-2.5), F2Z_round 3.5,
+   F2Z_round 0x1.dffffffffffffp+4, F2Z_round 0x1p60, F2Z_round nan, F2Z_round (-0))%float
+  = (20, 29, -2, 4, 30, 2 ^ 60, 0, 0)%Z.
+Proof. vm_compute. reflexivity. Qed.
+Example ex_limit_offset :
+  (limit_offset 100 (Some f02) true, limit_offset 100 (Some f02) false, limit_offset 100 None true)
+  = (20, 0, 0)%Z.
 Proof. vm_compute. reflexivity. Qed.
 
 Definition sig6 : list (PrimFloat.float * PrimFloat.float) :=
